@@ -63,6 +63,10 @@ def extra(chk: Check) -> None:
         for _prop, rule, construct, ok, loc, msg, facts in ownership(repo).obs:
             if rule == "R03.3" and _ATTACH.search(construct) and "__setitem__" not in construct:
                 chk.ob("R17.4", construct, ok, loc, msg, facts)
+    if p == "C03":
+        # a loaded IR is an IR: the duplicate-UUID detection of the loader keeps the table exact
+        from .c17 import register_before_children
+        register_before_children(chk, "R03.6")
     if p == "C17":
         # "... and can be saved again"
         from .c02 import writers_total
@@ -80,6 +84,46 @@ def extra(chk: Check) -> None:
         sub = chk.sub()
         _ctor_copies(sub)
         chk.adopt(sub, lambda o: "ByteInterval" in o.construct or "ByteBlock" in o.construct, "R19.5")
+    if p in ("C03", "C04", "C05", "C12"):
+        # an operator / method of an owning collection that hands out its backing store lets the
+        # caller change the collection behind the hooks (ownership, UUID table, indexes)
+        from .c16 import run as _c16
+        cache = repo.__dict__.setdefault("_prop_obs", {})
+        if "C16" not in cache:
+            sub16 = Check("C16", repo, chk.tier)
+            _c16(sub16)
+            cache["C16"] = sub16
+        for o in cache["C16"].obs:
+            if o.construct.endswith(":returns-store"):
+                chk.ob({"C03": "R03.5", "C04": "R04.2", "C05": "R05.8", "C12": "R12.6"}[p], o.construct, o.ok, o.loc,
+                       o.message, o.facts, o.undecided)
+    if p == "C02":
+        # the reader collects CFG edges through CFG.add: what the set keeps is what is loaded
+        cache = repo.__dict__.setdefault("_prop_obs", {})
+        if "C11" not in cache:
+            from .c11 import run as _c11
+            sub11 = Check("C11", repo, chk.tier)
+            _c11(sub11)
+            cache["C11"] = sub11
+        for o in cache["C11"].obs:
+            if o.rule in ("R11.1", "R11.6") and not o.ok:
+                chk.ob("R02.3", o.construct, o.ok, o.loc, o.message, o.facts, o.undecided)
+    if p == "C10":
+        # the symbol indexes are kept by the same hooks that keep the UUID table: a cache method
+        # that can fail half-way leaves a symbol indexed but not a member
+        from .ownership import ownership
+        for _prop, rule, construct, ok, loc, msg, facts in ownership(repo).obs:
+            if rule == "R03.1" and ":param-use(" in construct:
+                chk.ob("R10.3", construct, ok, loc, msg, facts)
+    if p == "C13":
+        # section, module and IR scope go through the section's interval index: its keys
+        # (ByteInterval.address / size) must notify it, and the notification must not fail half-way
+        from .lookups import index_key_rule, notify_protocol, tree_sites
+        from .ownership import ownership
+        for site in tree_sites(repo):
+            if site.owner.name == "Section":
+                index_key_rule(chk, site, ownership(repo), "R13.4")
+        notify_protocol(chk, "R13.4")
     if p == "C18":
         # "changing any single compared field of one side makes it false": two nodes never share
         # a mutable attribute value
